@@ -252,6 +252,44 @@ func flows() []flow {
 			}
 			return o
 		}},
+		{"node-handle-token-response-retried", func(w *world, st *harness.MemStore) {
+			// st becomes the node's store: fresh credentials of K1, to be enrolled with the activation token
+			for _, k := range st.Keys() {
+				f := strings.SplitN(k, "/", 2)
+				st.DeleteRaw(f[0], f[1])
+			}
+			if _, err := types.NewNodeCredentials(harness.Ctx, st, nodeenrollment.WithActivationToken(w.tok.String), nodeenrollment.WithRandomReader(harness.DetRand("c13-token-node"))); err != nil {
+				panic(err)
+			}
+		}, func(w *world, st *harness.MemStore) outcome {
+			c, lerr := types.LoadNodeCredentials(harness.Ctx, st, nodeenrollment.CurrentId)
+			if lerr != nil {
+				return outcome{Err: lerr}
+			}
+			req, rerr := c.CreateFetchNodeCredentialsRequest(harness.Ctx, nodeenrollment.WithActivationToken(w.tok.String))
+			if rerr != nil {
+				panic(rerr)
+			}
+			resp, err := registration.FetchNodeCredentials(harness.Ctx, w.base.Clone(), req)
+			if err != nil || !harness.HasCreds(resp) {
+				panic(fmt.Sprint("server side of node-handle-token-response-retried: ", err))
+			}
+			// the node handles the answer; when that fails (its store failed) it
+			// tries again with the same answer on the same credentials object -
+			// the token is spent, there is no second answer to be had
+			out, err := c.HandleFetchNodeCredentialsResponse(harness.Ctx, st, resp, nodeenrollment.WithActivationToken(w.tok.String))
+			if err != nil {
+				out, err = c.HandleFetchNodeCredentialsResponse(harness.Ctx, st, resp, nodeenrollment.WithActivationToken(w.tok.String))
+			}
+			o := outcome{Err: err, Handed: out != nil}
+			if err == nil {
+				l, lerr := types.LoadNodeCredentials(harness.Ctx, st.Clone(), nodeenrollment.CurrentId)
+				if lerr != nil || len(l.CertificateBundles) != 2 || !proto.Equal(l, out) {
+					o.Durable = "the node reports updated credentials that its storage does not hold"
+				}
+			}
+			return o
+		}},
 		storeOnceRetryFlow("fetch-wrapper-retry-storeonce-ptr-error", 0),
 		storeOnceRetryFlow("fetch-wrapper-retry-storeonce-value-error", 1),
 		dialFlow("dial-first-time-node-faults", true),
@@ -478,7 +516,7 @@ func (w *world) one(f flow, k kase, r *engine.Report) (string, string, int) {
 	if o.Durable != "" && strings.Contains(o.Durable, "left usable") {
 		return "token-left-usable:" + f.Name, desc + ": " + o.Durable, calls
 	}
-	if f.Name != "node-new-credentials" && f.Name != "node-handle-response" && f.Name != "dial-first-time-node-faults" {
+	if f.Name != "node-new-credentials" && f.Name != "node-handle-response" && f.Name != "node-handle-token-response-retried" && f.Name != "dial-first-time-node-faults" {
 		// the token clause holds whatever the call returned
 		if f.Name == "fetch-token" && st.NodeInfo(w.k["K1"].KeyId) != nil {
 			if _, still := st.Raw("token", w.tok.Id); still {
@@ -598,7 +636,7 @@ func init() {
 	engine.Register(&engine.CheckDef{
 		ID:    "C13",
 		Level: "fault_enumeration",
-		Rule: "22 flows (authorize; fetch: authorized / unauthorized / token / wrapper / re-wrapped; token creation; root rotation: empty / no-op / promote / reinit; node rotation by key id / node id; server certificates by key id / node id / after the roots were replaced; node-side NewNodeCredentials and HandleFetchNodeCredentialsResponse; a repeated wrapper fetch on a store-once storage (both duplicate-error forms); a first-time Dial through the real listener with faults in the node's resp. the server's storage) x every storage call position of the fault-free run x {generic error, ErrNotFound, context.Canceled}; thorough adds every pair of positions x 9 kind pairs; " +
+		Rule: "23 flows (authorize; fetch: authorized / unauthorized / token / wrapper / re-wrapped; token creation; root rotation: empty / no-op / promote / reinit; node rotation by key id / node id; server certificates by key id / node id / after the roots were replaced; node-side NewNodeCredentials and HandleFetchNodeCredentialsResponse (node-led; token-led with a retry of the same answer on the same object after a failure); a repeated wrapper fetch on a store-once storage (both duplicate-error forms); a first-time Dial through the real listener with faults in the node's resp. the server's storage) x every storage call position of the fault-free run x {generic error, ErrNotFound, context.Canceled}; thorough adds every pair of positions x 9 kind pairs; " +
 			"distinct_nontrivial counts fault placements (distinct by construction) in which every injected fault was actually reached by the call",
 		Assumptions: []string{"a failing storage call has no effect (no torn writes: the Storage interface is message-granular)", "a fault that turns a refusal into a durable success is not judged here (the property allows a result that is fully reflected in storage)"},
 		Shards:      func(c *engine.Ctx) int { return 8 },
